@@ -30,6 +30,7 @@ type World struct {
 	srcCache map[string][]byte
 	implCache map[string][]*ssa.Function
 	PureIface func(c *ssa.CallCommon) bool // set from the contracts: interface methods declared pure
+	Impls     map[*ssa.Function][]implRef  // interface-method contracts each library method must refine
 	PureSig   func(c *ssa.CallCommon) bool // set from the contracts: function types whose `sig` family contract is pure
 	// package-level variables stored only by package initialisers
 	FrameKeys map[*ssa.Function]map[string]bool // per-key version of FrameAll (stores in the function itself only)
@@ -1050,6 +1051,77 @@ func (w *World) sigTargetsOf(c *ssa.CallCommon) ([]*ssa.Function, bool) {
 	}
 	ts := w.SigTargets[sigString(sg)]
 	return ts, len(ts) > 0
+}
+
+// implRef: an interface method contract that a library method has to refine.
+type implRef struct {
+	Key    string
+	Ct     *Contract
+	Params []string // parameter names of the interface method (after the receiver, which the contract calls recv)
+}
+
+// ifaceImpls: for every library method, the interface-method contracts with postconditions it implements. The method is
+// checked against those postconditions as well (class `post`), so that what callers assume at an interface call is
+// proved of every implementation in the module (implementations outside the module: assumption).
+func (w *World) ifaceRefinements(cs *Contracts) map[*ssa.Function][]implRef {
+	out := map[*ssa.Function][]implRef{}
+	for _, p := range w.Pkgs {
+		for _, m := range p.Members {
+			tn, ok := m.(*ssa.Type)
+			if !ok {
+				continue
+			}
+			it, isIface := tn.Type().Underlying().(*types.Interface)
+			if !isIface {
+				continue
+			}
+			for i := 0; i < it.NumMethods(); i++ {
+				key := qualName(tn.Type()) + "." + it.Method(i).Name()
+				ct := cs.IfaceFor(key)
+				if ct == nil || len(ct.Ensures) == 0 {
+					continue
+				}
+				ms := it.Method(i).Type().(*types.Signature)
+				var params []string
+				for j := 0; j < ms.Params().Len(); j++ {
+					params = append(params, ms.Params().At(j).Name())
+				}
+				for j, n := range strings.Fields(ct.Opts["params"]) {
+					if j < len(params) {
+						params[j] = n
+					}
+				}
+				for _, p2 := range w.Pkgs {
+					for _, m2 := range p2.Members {
+						t2, ok := m2.(*ssa.Type)
+						if !ok {
+							continue
+						}
+						if _, isI := t2.Type().Underlying().(*types.Interface); isI {
+							continue
+						}
+						seen := map[*ssa.Function]bool{}
+						for _, t := range []types.Type{t2.Type(), types.NewPointer(t2.Type())} {
+							if !types.Implements(t, it) {
+								continue
+							}
+							sel := w.Prog.MethodSets.MethodSet(t).Lookup(it.Method(i).Pkg(), it.Method(i).Name())
+							if sel == nil {
+								continue
+							}
+							fn := w.Prog.FuncValue(sel.Obj().(*types.Func))
+							if fn == nil || seen[fn] || fn.Synthetic != "" {
+								continue
+							}
+							seen[fn] = true
+							out[fn] = append(out[fn], implRef{key, ct, params})
+						}
+					}
+				}
+			}
+		}
+	}
+	return out
 }
 
 // checkPureIfaces: every library type implementing an interface method declared `pure` must write no memory that
